@@ -203,6 +203,8 @@ package m3
 //@   ghost gsum int = 0
 //@   ghost grecv int = 0
 //@   ghost gemit int = 0
+//@   ghost gpooled set[int] = intset()
+//@   ghost gborn set[int] = intset()
 //@   after "for smet := range r.metCh": assume @every_metric_fits_on_its_own 0 <= smet.size && smet.size <= r.freeBytes
 //@   after "for smet := range r.metCh": grecv = grecv + (smet.set ? 1 : 0)
 //@   before all "r.flush(mets)": assert @batch_within_the_packet_budget gsum <= r.freeBytes
@@ -212,13 +214,21 @@ package m3
 //@   after "mets = append(mets, m)": assert @appended_metric_is_the_received_one len(mets) >= 1 && mets[len(mets)-1].Name == smet.m.Name && mets[len(mets)-1].Timestamp == smet.m.Timestamp && mets[len(mets)-1].Value.MetricType == smet.m.Value.MetricType && mets[len(mets)-1].Value.Count == smet.m.Value.Count && same(mets[len(mets)-1].Value.Gauge, smet.m.Value.Gauge) && mets[len(mets)-1].Value.Timer == smet.m.Value.Timer
 //@   after "mets = append(mets, m)": assert @plain_metrics_keep_their_tags len(smet.bucket) == 0 ==> same(mets[len(mets)-1].Tags, smet.m.Tags)
 //@   after "tags := extraTags.Get().([]m3thrift.MetricTag)": assume @pooled_tag_slices_are_empty_and_unshared len(tags) == 0 && arrof(tags) != arrof(smet.m.Tags)
+//@   after "tags := extraTags.Get().([]m3thrift.MetricTag)": gpooled = setdel(gpooled, arrof(tags))
+//@   after "tags := extraTags.Get().([]m3thrift.MetricTag)": gborn = setadd(gborn, arrof(tags))
+//@   after "borrowedTags = append(borrowedTags, tags)": gborn = setadd(gborn, arrof(tags))
+//@   before "extraTags.Put(borrowedTags[i][:0])": gpooled = setadd(gpooled, arrof(borrowedTags[i]))
+//@   after "for smet := range r.metCh": assume @queued_metrics_do_not_carry_pool_slices !gborn[arrof(smet.m.Tags)]
+//@   after "mets = append(mets, m)": assert @no_metric_of_the_open_batch_uses_a_recycled_slice !gpooled[arrof(mets[len(mets)-1].Tags)]
 //@   after "m.Tags = tags": assert @bucket_metrics_carry_their_own_tags_then_id_and_range len(tags) == len(smet.m.Tags) + 2 && (forall j int :: 0 <= j && j < len(smet.m.Tags) ==> tags[j].Name == smet.m.Tags[j].Name && tags[j].Value == smet.m.Tags[j].Value) && tags[len(smet.m.Tags)].Name == r.bucketIDTagName && tags[len(smet.m.Tags)].Value == smet.bucketID && tags[len(smet.m.Tags)+1].Name == r.bucketTagName && tags[len(smet.m.Tags)+1].Value == smet.bucket
 //@   after "mets = append(mets, m)": assert @bucket_metrics_are_sent_with_the_extended_tags len(smet.bucket) > 0 ==> len(mets[len(mets)-1].Tags) == len(smet.m.Tags) + 2
 //@   before "extraTags.Put(borrowedTags[i][:0])": assert @only_emptied_slices_go_back_to_the_pool 0 <= i && i < len(borrowedTags)
 //@   ensures @every_received_metric_was_handed_to_flush_once grecv == gemit
 //@   loop 1 invariant @running_total_is_the_charged_sum bytes == gsum && 0 <= gsum && gsum <= r.freeBytes
 //@   loop 1 invariant @received_is_emitted_plus_open_batch grecv == gemit + len(mets) && 0 <= gemit
+//@   loop 1 invariant @only_pool_slices_are_recycled (forall x int :: gpooled[x] ==> gborn[x]) && (forall x int :: gborn[x] ==> valid(x)) && (forall p int :: 0 <= p && p < len(borrowedTags) ==> gborn[arrof(borrowedTags[p])])
 //@   loop 2 invariant @idx 0 <= rangeindex+1 && rangeindex+1 <= len(borrowedTags)
+//@   loop 2 invariant @only_pool_slices_are_recycled (forall x int :: gpooled[x] ==> gborn[x]) && (forall x int :: gborn[x] ==> valid(x)) && (forall p int :: 0 <= p && p < len(borrowedTags) ==> gborn[arrof(borrowedTags[p])])
 
 // ---------------------------------------------------------------------------
 // C13 / C16: pre-built metrics.  A pre-built metric carries the allocation's
